@@ -22,6 +22,8 @@ HARN = os.path.join(ROOT, "harness")
 WORK = os.path.join(ROOT, "work")
 EVID = os.path.join(ROOT, "evidence")
 ALLOWED_AXIOMS = {"propext", "Classical.choice", "Quot.sound"}
+# generators whose scenarios are independent are run as parallel shards (VERIF_SHARD=i/n) and merged
+SHARDED = {"C01": 8, "C02": 8, "C03": 8, "C04": 10, "C05": 8, "C06": 8, "C07": 8, "C08": 8, "C09": 8, "C10": 8, "C11": 12, "C12": 8, "C16": 8, "C19": 8}
 ENV = dict(os.environ, CARGO_NET_OFFLINE="true")
 
 
@@ -54,7 +56,7 @@ def props_info(prop):
     # strip block and line comments before looking for declarations
     src_nc = re.sub(r"/-.*?-/", "", src, flags=re.S)
     src_nc = re.sub(r"--.*", "", src_nc)
-    names = re.findall(r"^\s*(?:private\s+|protected\s+)?theorem\s+([A-Za-z_][A-Za-z0-9_'.]*)", src_nc, flags=re.M)
+    names = re.findall(r"^\s*(?:private\s+|protected\s+)?theorem\s+([^\s(:{\[]+)", src_nc, flags=re.M)
     return path, names
 
 
@@ -135,10 +137,48 @@ def harness_stage(prop, tier, seed):
         except FileNotFoundError:
             pass
     exe = os.path.join(HARN, "target", "debug", "vharness")
-    rc, log = sh([exe, "gen", prop, tier, str(seed), wd], cwd=ROOT, timeout=6 * 3600)
-    if rc != 0 or not os.path.exists(os.path.join(wd, "gen.json")):
-        out["problems"].append("harness gen failed (rc=%s):\n%s" % (rc, log[-3000:]))
-        return out
+    nshard = SHARDED.get(prop, 1)
+    if nshard == 1:
+        rc, log = sh([exe, "gen", prop, tier, str(seed), wd], cwd=ROOT, timeout=6 * 3600)
+        if rc != 0 or not os.path.exists(os.path.join(wd, "gen.json")):
+            out["problems"].append("harness gen failed (rc=%s):\n%s" % (rc, log[-3000:]))
+            return out
+    else:
+        procs = []
+        for i in range(nshard):
+            sd = os.path.join(wd, "shard%d" % i)
+            os.makedirs(sd, exist_ok=True)
+            for f in ("ops.txt", "impl.txt", "gen.json"):
+                try:
+                    os.remove(os.path.join(sd, f))
+                except FileNotFoundError:
+                    pass
+            procs.append((sd, subprocess.Popen([exe, "gen", prop, tier, str(seed), sd], cwd=ROOT, env=dict(ENV, VERIF_SHARD="%d/%d" % (i, nshard)),
+                                               stdout=subprocess.PIPE, stderr=subprocess.STDOUT, text=True)))
+        merged = None
+        with open(os.path.join(wd, "ops.txt"), "w") as fo, open(os.path.join(wd, "impl.txt"), "w") as fi:
+            for sd, pr in procs:
+                log, _ = pr.communicate(timeout=6 * 3600)
+                if pr.returncode != 0 or not os.path.exists(os.path.join(sd, "gen.json")):
+                    out["problems"].append("harness gen failed in %s (rc=%s):\n%s" % (os.path.basename(sd), pr.returncode, (log or "")[-3000:]))
+                    continue
+                fo.write(open(os.path.join(sd, "ops.txt")).read())
+                fi.write(open(os.path.join(sd, "impl.txt")).read())
+                g = json.load(open(os.path.join(sd, "gen.json")))
+                if merged is None:
+                    merged = g
+                else:
+                    for k in ("model_ops", "oracle_evals", "distinct_nontrivial"):
+                        merged[k] += g[k]
+                    for k, v in g["counters"].items():
+                        merged["counters"][k] = merged["counters"].get(k, 0) + v
+                    merged["samples"] = (merged["samples"] + g["samples"])[:12]
+                    merged["notes"] += g["notes"]
+                    have = {v["signature"] for v in merged["violations"]}
+                    merged["violations"] += [v for v in g["violations"] if v["signature"] not in have]
+        if out["problems"] or merged is None:
+            return out
+        json.dump(merged, open(os.path.join(wd, "gen.json"), "w"))
     driver = os.path.join(LEAN, ".lake", "build", "bin", "driver")
     with open(os.path.join(wd, "ops.txt")) as fi, open(os.path.join(wd, "model.txt"), "w") as fo:
         p = subprocess.run([driver], stdin=fi, stdout=fo, stderr=subprocess.PIPE, text=True, timeout=3600)
@@ -183,6 +223,9 @@ def main():
     os.makedirs(EVID, exist_ok=True)
     os.makedirs(os.path.join(EVID, "replay"), exist_ok=True)
 
+    for f in os.listdir(os.path.join(EVID, "replay")):
+        if f.startswith(prop + "-"):
+            os.remove(os.path.join(EVID, "replay", f))
     known = json.load(open(os.path.join(ROOT, "known_findings.json")))
     known_sigs = {k["signature"]: k for k in known if k["property"] == prop and k["status"] == "known"}
 
